@@ -205,7 +205,8 @@ impl Cursor<'_> {
                             e,
                         ))
                     }
-                    _ => return Ok(self.ident()?),
+                    // Not a number after all: the whole token has been consumed, so it starts at the prefix
+                    _ => return Ok(self.ident_from(start - prefix)?),
                 },
             },
         };
@@ -278,7 +279,12 @@ impl Cursor<'_> {
     }
 
     fn ident(&mut self) -> Result<TokenKind> {
-        let ident_start = self.abs_pos() - 1;
+        // Only the (single-byte) first character has been consumed
+        self.ident_from(self.abs_pos() - 1)
+    }
+
+    /// Identifier or keyword starting at byte offset `ident_start`, which must be a character boundary.
+    fn ident_from(&mut self, ident_start: usize) -> Result<TokenKind> {
         self.take_while(is_id);
         let ident = self
             .get_range(ident_start..self.abs_pos())
